@@ -229,6 +229,24 @@ class B(object):
         return '(lambda %s: %s)' % (', '.join(text), body)
 
     def comp_expr(self, ctx, depth, forbid):
+        if (self.profile in ('c01', 'c02') and self.room() and self.chance(12) and not ctx.get('in_class_direct') and not ctx.get('no_walrus')
+                and not ctx.get('in_lambda') and not ctx.get('in_comp') and not (self.profile != 'c01' and getattr(self, 'stmt_has_walrus', False))):
+            # a comprehension nested in the element / a condition / an iterable of another one, binding a name (walrus) that is
+            # read after the statement
+            self.dec()
+            self.features.add('walrus-in-nested-comp')
+            self.stmt_has_walrus = True
+            inner = dict(ctx, no_walrus=True, in_comp=True)
+            wn = self.pick(['w1', 'w2'])
+            fb = tuple(forbid) + (wn,)
+            it1 = self.expr(inner, depth + 1, fb)
+            it2 = self.expr(inner, depth + 1, fb)
+            val = self._read(inner, fb)
+            form = self.pick(['[[(%(w)s := n2) for n2 in %(b)s] for n1 in %(a)s]', '[n1 for n1 in %(a)s if use([(%(w)s := n1) for n2 in %(b)s])]',
+                              '[n1 for n1 in [(%(w)s := %(v)s) for n2 in %(a)s]]', '{n1: [(%(w)s := n2) for n2 in %(b)s] for n1 in %(a)s}',
+                              '[n1 for n1 in %(a)s for n3 in [(%(w)s := n1) for n2 in %(b)s]]', 'use(((%(w)s := n2) for n2 in %(b)s) for n1 in %(a)s)'])
+            self.bind(ctx, [wn] * 3)
+            return form % {'w': wn, 'a': it1, 'b': it2, 'v': val}
         kind = self.pick(['list', 'set', 'dict', 'gen', 'list'])
         self.features.add('comp-' + kind)
         self.dec()
